@@ -31,7 +31,7 @@ ASSUMPTIONS = [
   'two rules never produce the same aggregate name (that configuration has no documented meaning)',
   'WRITE_BACK_FREQUENCY = 0 is excluded: a zero-interval LoopingCall never terminates on a virtual clock',
   'names for which the pattern language admits several bindings are not sent',
-  'expiry is only judged away from its documented boundaries: values may be forgotten once a flush happened >= (MAX-1)*frequency after the last datapoint of the interval, or once the series has held more than MAX+1 distinct intervals',
+  'expiry is only judged away from its documented boundaries: values may be forgotten once a flush happened >= MAX*frequency after the last datapoint of the interval (the documented figure; the code itself waits longer), or when at some flush at least MAX+2 newer intervals of the series had received data (the too-many rule takes the oldest intervals)',
   'values are small dyadic rationals so that floating point sums are exact; avg/percentiles are compared with relative tolerance 1e-9; value checks with +-inf only for sum/min/max/count',
 ]
 SIGNATURES = ()
@@ -60,6 +60,10 @@ def cases(draw):
       val = draw(st.one_of(st.integers(-50, 50), st.integers(-8, 8).map(lambda x: x / 4.0),
                            st.sampled_from([float('inf'), float('-inf'), 0.0, 1000.0])))
       steps.append(['recv', name, how, val])
+    elif k == 6 and used:
+      # a live datapoint followed by a replayed backlog of older intervals (buffers allocated out of order)
+      steps.append(['replay', draw(st.sampled_from(used)), draw(st.integers(2, 9)), draw(st.integers(-20, 20)),
+                    draw(st.sampled_from(['desc', 'asc', 'live-last']))])
     else:
       steps.append(['advance', draw(st.sampled_from(['0.5', '1', '1', 'freq', 'freq', '3freq', '50freq']))])
   return {'rules': rules, 'styles': [draw(st.integers(0, 1)) for _ in rules], 'max_intervals': maxint,
@@ -178,21 +182,19 @@ def execute(ctx, case):
     sent = []
     flags = set()
     maxfreq = max(r['frequency'] for r in case['rules'])
-    for step in case['steps']:
-      if step[0] == 'advance':
-        d = {'0.5': 0.5, '1': 1.0, 'freq': float(maxfreq), '3freq': 3.0 * maxfreq, '50freq': 50.0 * maxfreq}[step[1]]
-        clock.advance(d)
-        continue
+    def feed(step, now, f0):
+      """one received datapoint; returns False after reporting a violation"""
       _, name, how, val = step
-      now = FakeTime.time()
-      f0 = case['rules'][0]['frequency']
-      ts = {'now': int(now), 'late1': int(now) - f0, 'late2': int(now) - 2 * f0, 'late3': int(now) - 3 * f0,
-            'old': int(now) - (case['max_intervals'] + 5) * maxfreq, 'future': int(now) + 2, 'frac': now - 0.25,
-            'same': last_ts[0]}[how]
+      if how.startswith('abs:'):
+        ts = int(how[4:])
+      else:
+        ts = {'now': int(now), 'late1': int(now) - f0, 'late2': int(now) - 2 * f0, 'late3': int(now) - 3 * f0,
+              'old': int(now) - (case['max_intervals'] + 5) * maxfreq, 'future': int(now) + 2, 'frac': now - 0.25,
+              'same': last_ts[0]}[how]
       last_ts[0] = ts
       cands = [aggpat.aggregates(r, name) for r in case['rules']]
       if any(len(c) > 1 for c in cands):
-        continue                      # ambiguous binding: not sent
+        return True                   # ambiguous binding: not sent
       fed = []
       for r, c in zip(case['rules'], cands):
         if c:
@@ -203,13 +205,13 @@ def execute(ctx, case):
         out = list(proc.process(name, (ts, val)))
       except Exception as e:  # noqa
         ctx.fail('C08:process-raised:%s' % type(e).__name__, 'process(%r, %r) raised %r' % (name, (ts, val), e), case)
-        return
+        return False
       sent.append((name, ts, val))
       want_out = [(name, (ts, val))] if case['forward_all'] and name not in [a for a, _ in fed] else []
       if out != want_out:
         ctx.fail('C08:pass-through', 'FORWARD_ALL=%s, %r feeds %r: process() yielded %r, expected %r' % (
           case['forward_all'], name, [a for a, _ in fed], out, want_out), case, 'pass-through')
-        return
+        return False
       for a, r in fed:
         freq_of.setdefault(a, (r['frequency'], r['method']))
         fq = freq_of[a][0]
@@ -219,6 +221,27 @@ def execute(ctx, case):
         intervals_of.setdefault(a, set()).add(I)
         if any(e[0] == a and e[1] == I for e in emitted):
           flags.add('late value for an emitted interval')
+      return True
+
+    for step in case['steps']:
+      if step[0] == 'advance':
+        d = {'0.5': 0.5, '1': 1.0, 'freq': float(maxfreq), '3freq': 3.0 * maxfreq, '50freq': 50.0 * maxfreq}[step[1]]
+        clock.advance(d)
+        continue
+      now = FakeTime.time()
+      f0 = case['rules'][0]['frequency']
+      pending = []
+      if step[0] == 'replay':
+        _, name, n, val, order = step
+        offs = list(range(1, n + 1))
+        seq_ = {'desc': [0] + offs[::-1], 'asc': [0] + offs, 'live-last': offs + [0]}[order]
+        pending.extend(['recv', name, 'abs:%d' % (int(now) - j * f0), val + j] for j in seq_)
+        flags.add('replayed backlog')
+      else:
+        pending.append(step)
+      for st_ in pending:
+        if not feed(st_, now, f0):
+          return
     # final phase: no new input, the clock passes MAX+3 intervals
     period = min([r['frequency'] for r in case['rules']] + ([case['wbf']] if case['wbf'] else []))
     total = (case['max_intervals'] + 3) * maxfreq + 2 * maxfreq
@@ -245,14 +268,29 @@ def execute(ctx, case):
         ctx.fail('C08:wrong-aggregate-value', '%s of %r interval %r emitted %r at t+%.1f; values received so far %r, %d of them '
                  'since the previous emission' % (method, a, I, v, T - BASE, vals, len(vals) - e), case, 'function-of-interval')
         return
-      if 0 not in ks and not all(value_matches(method, vals[k:], v) for k in range(0, e + 1)):
-        # some earlier values were forgotten: only legitimate after an expiry
-        k = min(ks)
-        forgotten_last_arrival = arrived[k - 1][1]
-        fl = [F for F in flushes.get(a, []) if forgotten_last_arrival <= F <= T]
-        old_enough = any(F - forgotten_last_arrival >= (case['max_intervals'] - 1) * fq for F in fl)
-        too_many = len(intervals_of.get(a, ())) > case['max_intervals'] + 1
-        if not (old_enough or too_many):
+      if 0 not in ks:
+        # some earlier values were forgotten: only legitimate after an expiry.  Any k that explains the emitted value
+        # and whose forgotten prefix could have expired (per the documented rules) is accepted.
+        excused = False
+        for k in ks:
+          forgotten_last_arrival = arrived[k - 1][1]
+          # only flushes before the first retained value arrived can have expired the forgotten ones
+          first_kept_arrival = arrived[k][1]
+          fl = [F for F in flushes.get(a, []) if forgotten_last_arrival <= F <= first_kept_arrival]
+          old_enough = any(F - forgotten_last_arrival >= case['max_intervals'] * fq for F in fl)
+          # the "more than MAX+2 intervals" rule may only take the OLDEST intervals: it excuses forgetting only if at
+          # some flush in the window this interval was not among the newest MAX+2 intervals that had received data
+          too_many = False
+          for F in fl:
+            had_data = set(Ix for (ax, Ix), vs in R.items() if ax == a and any(x[1] <= F for x in vs))
+            newer = sum(1 for Ix in had_data if Ix > I)
+            if newer >= case['max_intervals'] + 2:
+              too_many = True
+          if old_enough or too_many:
+            excused = True
+            break
+        if not excused:
+          k = min(ks)
           ctx.fail('C08:values-forgotten-inside-horizon',
                    '%s of %r interval %r emitted %r at t+%.1f = function of only the last %d of %d values although the interval '
                    'never left the retention horizon (MAX_AGGREGATION_INTERVALS=%d, frequency %d)' % (
@@ -291,4 +329,4 @@ def execute(ctx, case):
 
 
 def run(ctx):
-  run_given(ctx, cases(), execute, ctx.scale(1600, 5000), salt=1)
+  run_given(ctx, cases(), execute, ctx.scale(1300, 5000), salt=1)
